@@ -184,6 +184,61 @@ Proof.
   intro D. rewrite D in H1. cbn in H1. apply dist_stepb_sound. exact H1.
 Qed.
 
+(* ---------------------------------------------------------------- the roll-over on the integers, claimed for EVERY state *)
+
+(** what a minting day-epoch end (number [e]) does to the counters, whatever they were ([per], [sk] before):
+    the period advances by one iff, ON THE INTEGERS, e - EPP*per - sk >= EPP.  In particular when the counters are
+    ahead of the epoch number (the difference is negative) the period must not advance; the skipped counter is
+    untouched.  (Sizes below 2^62; [m0] = module balance before.) *)
+Definition roll_step (p : params) (m0 per sk e : Z) (x : out) : Prop :=
+  0 <= m0 -> 0 <= e < two62 -> 0 <= sk < two62 -> 0 < p_epp p < two62 -> 0 <= per -> p_epp p * per < two62 ->
+  0 < o_minted x ->
+  o_period x = (if p_epp p <=? e - p_epp p * per - sk then per + 1 else per) /\ o_skipped x = sk.
+
+Fixpoint P_roll (p : params) (m0 per sk : Z) (tr : list (op * out)) : Prop :=
+  match tr with
+  | [] => True
+  | (o, x) :: r =>
+      match o with
+      | EpochEnd true e => (dist_okb p = true -> roll_step p m0 per sk e x) /\ P_roll p (o_module x) (o_period x) (o_skipped x) r
+      | _ => P_roll (next_params p o) (o_module x) (o_period x) (o_skipped x) r
+      end
+  end.
+
+Definition roll_stepb (p : params) (m0 per sk e : Z) (x : out) : bool :=
+  if (0 <=? m0) && (0 <=? e) && (e <? two62) && (0 <=? sk) && (sk <? two62) && (0 <? p_epp p) && (p_epp p <? two62) &&
+     (0 <=? per) && (p_epp p * per <? two62) && (0 <? o_minted x)
+  then (o_period x =? (if p_epp p <=? e - p_epp p * per - sk then per + 1 else per)) && (o_skipped x =? sk)
+  else true.
+
+Fixpoint Pb_roll (p : params) (m0 per sk : Z) (tr : list (op * out)) : bool :=
+  match tr with
+  | [] => true
+  | (o, x) :: r =>
+      match o with
+      | EpochEnd true e => (negb (dist_okb p) || roll_stepb p m0 per sk e x) && Pb_roll p (o_module x) (o_period x) (o_skipped x) r
+      | _ => Pb_roll (next_params p o) (o_module x) (o_period x) (o_skipped x) r
+      end
+  end.
+
+Lemma roll_stepb_sound p m0 per sk e x : roll_stepb p m0 per sk e x = true -> roll_step p m0 per sk e x.
+Proof.
+  unfold roll_stepb, roll_step. intros H A1 A2 A3 A4 A5 A6 A7.
+  assert (G : (0 <=? m0) && (0 <=? e) && (e <? two62) && (0 <=? sk) && (sk <? two62) && (0 <? p_epp p) && (p_epp p <? two62) &&
+              (0 <=? per) && (p_epp p * per <? two62) && (0 <? o_minted x) = true).
+  { repeat (apply andb_true_iff; split); try (apply Z.leb_le; lia); apply Z.ltb_lt; lia. }
+  rewrite G in H. apply andb_true_iff in H. destruct H as [H1 H2].
+  apply Z.eqb_eq in H1. apply Z.eqb_eq in H2. auto.
+Qed.
+
+Lemma Pb_roll_sound tr : forall p m0 per sk, Pb_roll p m0 per sk tr = true -> P_roll p m0 per sk tr.
+Proof.
+  induction tr as [|[o x] r IH]; intros p m0 per sk H; [exact I|].
+  destruct o as [[|] e|auth b|auth ed|amt]; cbn [Pb_roll P_roll] in *; try (apply IH; exact H).
+  apply andb_true_iff in H. destruct H as [H1 H2]. split; [|apply IH; exact H2].
+  intro D. rewrite D in H1. cbn in H1. apply roll_stepb_sound. exact H1.
+Qed.
+
 (* ---------------------------------------------------------------- boolean checker *)
 
 Definition view_eqb (a b : view) : bool :=
